@@ -256,6 +256,7 @@ func runC08(c *Ctx) {
 	// ---- R5 -------------------------------------------------------------------------------------
 	c.Rule("R6", "accessor agreement for the report/acknowledgement state (consumer outstanding-downtime flags, provider slash acks)", 6)
 	checkAccessorAgreement(c, "ck", "OutstandingDowntimeKey")
+	checkCollectors(c, "ck", "GetAllOutstandingDowntimes")
 	checkAccessorAgreement(c, "pk", "SlashAcksKey")
 	checkSetterValues(c, "ck", []string{"OutstandingDowntime"})
 	checkSetterValues(c, "pk", []string{"SlashAcks"})
